@@ -19,7 +19,7 @@ from vfw import c17_models as M
 ID = 'C19'
 LEVEL = 'exploration'
 TECHNIQUE = ('Hypothesis-generated recorded runs (shared with C17); recorded case as oracle for the state of a fresh/perturbed problem '
-             'after load_case; re-run of the model as metamorphic check; NumPy closed form of the model as absolute anchor')
+             'after load_case (bitwise); unchanged-rest frame condition; re-run of the model as metamorphic check')
 RULE = ("case = C17 case (model spec x driver x recorder placement/options x run sequence) + 3 drawn positions in the list of recorded "
         "cases (one recorded after a complete solve, one in the middle of a run, one anywhere) + load mode (fresh problem after setup() | after final_setup() | after final_setup, other independent values and "
         "run_model). Every picked case is loaded into its own new Problem. Non-trivial = the loaded case holds an input connected "
